@@ -32,14 +32,16 @@ struct Case {
     /// 0 = direct forwarder, 1 = through the real Socks5Forwarder and a relaying SOCKS5 proxy, 2 = the same with the
     /// destination's first bytes arriving in the same segment as the proxy's CONNECT reply
     route: u8,
+    /// pause after every chunk written by either side (0 = none): a slow, steady transfer
+    pace_ms: u64,
 }
 
 impl Case {
     fn json(&self) -> Value {
-        let route = ["direct forwarder", "SOCKS5 forwarder", "SOCKS5 forwarder, destination's first bytes coalesced with the CONNECT reply"][self.route as usize];
+        let route = ["direct forwarder", "SOCKS5 forwarder", "SOCKS5 forwarder, destination's first bytes coalesced with the CONNECT reply", "direct forwarder, client_listener_timeout = 2 s"][self.route as usize];
         let order = ["client-first", "peer-first", "after-everything", "destination-resets-mid-download"][self.close as usize];
         json!({"kind":"l2-tunnel","index":self.index,"id":self.id,"protocol":if self.h2 {"h2"} else {"h1"},"up_bytes":self.up,"down_bytes":self.down,"up_chunk":self.up_chunk,"down_chunk":self.down_chunk,
-               "client_reads_slowly":self.client_slow,"peer_reads_slowly":self.peer_slow,"close_order":order,"route":route})
+               "client_reads_slowly":self.client_slow,"peer_reads_slowly":self.peer_slow,"close_order":order,"route":route,"pause_after_each_chunk_ms":self.pace_ms})
     }
 }
 
@@ -89,6 +91,7 @@ async fn peer(l: TcpListener, c: Case, progress: Arc<AtomicU64>) -> Side {
             if wr.write_all(&coded_stream(cw.id, 1, at as u64, n)).await.is_err() { return; }
             at += n;
             k += 1;
+            if cw.pace_ms > 0 { tokio::time::sleep(Duration::from_millis(cw.pace_ms)).await; }
             if k % 7 == 0 { tokio::time::sleep(Duration::from_millis(1)).await; }
         }
         match cw.close {
@@ -155,6 +158,7 @@ async fn client_h1(ep_addr: std::net::SocketAddr, target: String, c: Case, progr
             if wr.write_all(&coded_stream(cw.id, 0, at as u64, n)).await.is_err() { return; }
             at += n;
             k += 1;
+            if cw.pace_ms > 0 { let _ = wr.flush().await; tokio::time::sleep(Duration::from_millis(cw.pace_ms)).await; }
             if k % 5 == 0 { let _ = wr.flush().await; tokio::time::sleep(Duration::from_millis(1)).await; }
         }
         let _ = wr.flush().await;
@@ -215,6 +219,7 @@ async fn client_h2(ep_addr: std::net::SocketAddr, target: String, c: Case, progr
                 }
             }
             at += n;
+            if cw.pace_ms > 0 { tokio::time::sleep(Duration::from_millis(cw.pace_ms)).await; }
         }
         if cw.close != 0 { let _ = done_rx.await; }
         let _ = tx.send_data(Bytes::new(), true);
@@ -398,7 +403,14 @@ pub fn run_l2(rep: &Reporter, args: &Args) {
                     .forwarder_settings(trusttunnel::settings::ForwardProtocolSettings::Socks5(trusttunnel::settings::Socks5ForwarderSettings::builder().server_address(a).unwrap().build().unwrap()))
             }).await);
         }
-        let route_addr = [ep.addr, s5_eps[0].addr, s5_eps[1].addr];
+        // an endpoint whose client listener timeout (2 s) is much shorter than a steady transfer takes
+        let ep_short = {
+            let d = env::work_dir(&args.root, "c02short");
+            start_endpoint(&d, "127.0.0.1", &hosts, None, vec![], (true, true, false), |b| {
+                b.allow_private_network_connections(true).tcp_connections_timeout(Duration::from_secs(300)).client_listener_timeout(Duration::from_secs(2))
+            }).await
+        };
+        let route_addr = [ep.addr, s5_eps[0].addr, s5_eps[1].addr, ep_short.addr];
         // scheduler-lag monitor
         let lag = Arc::new(AtomicU64::new(0));
         let lag2 = lag.clone();
@@ -417,7 +429,7 @@ pub fn run_l2(rep: &Reporter, args: &Args) {
             let mut r = Rng::derive(seed, 0xc02f2, i);
             let mut c = Case {
                 index: i, id: common::fnv(format!("c02l2-{}-{}", seed, i).as_bytes()), h2: r.chance(1, 2), up: *r.pick(&sizes), down: *r.pick(&sizes), up_chunk: *r.pick(&chunks), down_chunk: *r.pick(&chunks),
-                client_slow: r.chance(1, 4), peer_slow: r.chance(1, 4), close: r.below(3) as u8, route: 0,
+                client_slow: r.chance(1, 4), peer_slow: r.chance(1, 4), close: r.below(3) as u8, route: 0, pace_ms: 0,
             };
             // tiny chunks only for small streams
             if c.up > 100_000 && c.up_chunk < 1000 { c.up_chunk = 16_384; }
@@ -437,17 +449,21 @@ pub fn run_l2(rep: &Reporter, args: &Args) {
             cases.push(c);
         }
         for (k, (h2, up, down, route)) in [(false, 10usize, 700usize, 2u8), (true, 10, 700, 2), (false, 0, 70_001, 2), (true, 0, 70_001, 2), (false, 300_000, 300_000, 1), (true, 300_000, 300_000, 2)].into_iter().enumerate() {
-            cases.push(Case { index: 4_000_000 + k as u64, id: common::fnv(format!("c02l2-s5fixed-{}-{}", seed, k).as_bytes()), h2, up, down, up_chunk: 16_384, down_chunk: 1000, client_slow: false, peer_slow: false, close: 2, route });
+            cases.push(Case { index: 4_000_000 + k as u64, id: common::fnv(format!("c02l2-s5fixed-{}-{}", seed, k).as_bytes()), h2, up, down, up_chunk: 16_384, down_chunk: 1000, client_slow: false, peer_slow: false, close: 2, route, pace_ms: 0 });
         }
         for (k, (h2, route)) in [(true, 1u8), (false, 1), (true, 2), (false, 2)].into_iter().enumerate() {
-            cases.push(Case { index: 5_000_000 + k as u64, id: common::fnv(format!("c02l2-s5rst-{}-{}", seed, k).as_bytes()), h2, up: 0, down: 200_000, up_chunk: 16_384, down_chunk: 16_384, client_slow: false, peer_slow: false, close: 3, route });
+            cases.push(Case { index: 5_000_000 + k as u64, id: common::fnv(format!("c02l2-s5rst-{}-{}", seed, k).as_bytes()), h2, up: 0, down: 200_000, up_chunk: 16_384, down_chunk: 16_384, client_slow: false, peer_slow: false, close: 3, route, pace_ms: 0 });
+        }
+        // steady transfers (a 1000-byte chunk every 200 ms each way, 5 s) on a session that gets no other request meanwhile
+        for (k, h2) in [false, true].into_iter().enumerate() {
+            cases.push(Case { index: 6_000_000 + k as u64, id: common::fnv(format!("c02l2-steady-{}-{}", seed, k).as_bytes()), h2, up: 25_000, down: 25_000, up_chunk: 1000, down_chunk: 1000, client_slow: false, peer_slow: false, close: 2, route: 3, pace_ms: 200 });
         }
         for (k, (h2, down)) in [(true, 200_000usize), (false, 200_000), (true, 3000), (false, 3000), (true, 1_500_000), (false, 1_500_000)].into_iter().enumerate() {
-            cases.push(Case { index: 2_000_000 + k as u64, id: common::fnv(format!("c02l2-rst-{}-{}", seed, k).as_bytes()), h2, up: 0, down, up_chunk: 16_384, down_chunk: 16_384, client_slow: false, peer_slow: false, close: 3, route: 0 });
+            cases.push(Case { index: 2_000_000 + k as u64, id: common::fnv(format!("c02l2-rst-{}-{}", seed, k).as_bytes()), h2, up: 0, down, up_chunk: 16_384, down_chunk: 16_384, client_slow: false, peer_slow: false, close: 3, route: 0, pace_ms: 0 });
         }
         // transfers larger than the HTTP/2 stream (128 KiB) and connection (8 MiB) windows, either direction, and on HTTP/1.1
         for (k, (h2, up, down)) in [(true, big, 3usize), (true, 3usize, big), (false, big / 2, big / 2), (true, big / 2, big / 2)].into_iter().enumerate() {
-            cases.push(Case { index: 1_000_000 + k as u64, id: common::fnv(format!("c02l2-big-{}-{}", seed, k).as_bytes()), h2, up, down, up_chunk: 65_536, down_chunk: 65_536, client_slow: k == 1, peer_slow: k == 0, close: 2, route: 0 });
+            cases.push(Case { index: 1_000_000 + k as u64, id: common::fnv(format!("c02l2-big-{}-{}", seed, k).as_bytes()), h2, up, down, up_chunk: 65_536, down_chunk: 65_536, client_slow: k == 1, peer_slow: k == 0, close: 2, route: 0, pace_ms: 0 });
         }
         // debugging aid: --l2-only <index> runs one case with the library's log
         let only: Option<u64> = args.extra.iter().position(|x| x == "--l2-only").and_then(|i| args.extra.get(i + 1)).and_then(|x| x.parse().ok());
@@ -484,6 +500,7 @@ pub fn run_l2(rep: &Reporter, args: &Args) {
         hb.abort();
         ep.task.abort();
         for e in &s5_eps { e.task.abort(); }
+        ep_short.task.abort();
         rep.set("l2_socks5", json!({"connect_requests_seen_by_the_proxies": [s5a.events().len(), s5b.events().len()]}));
         h2_credit_scenario(rep, &dir, seed, args.qt(40usize, 400usize)).await;
     });
